@@ -2,6 +2,7 @@
 pub mod alloc;
 pub mod engine;
 pub mod gen;
+pub mod labrun;
 pub mod peer;
 pub mod refc;
 pub mod registry;
@@ -19,6 +20,7 @@ pub mod props {
     pub mod c09;
     pub mod c10;
     pub mod c11;
+    pub mod c12;
     pub mod c13;
     pub mod c14;
     pub mod c15;
@@ -71,6 +73,7 @@ pub fn dispatch() -> Vec<(&'static str, RunFn, ReplayFn)> {
         ("C09", props::c09::run, props::c09::replay),
         ("C10", props::c10::run, props::c10::replay),
         ("C11", props::c11::run, props::c11::replay),
+        ("C12", props::c12::run, props::c12::replay),
         ("C13", props::c13::run, props::c13::replay),
         ("C14", props::c14::run, props::c14::replay),
         ("C15", props::c15::run, props::c15::replay),
@@ -80,4 +83,12 @@ pub fn dispatch() -> Vec<(&'static str, RunFn, ReplayFn)> {
         ("C20", props::c20::run, props::c20::replay),
         ("C17", props::c17::run, props::c17::replay),
     ]
+}
+
+/// Registry entry for a generated (lab) struct.
+#[macro_export]
+macro_rules! lab_ty {
+    ($name:literal, $t:ty) => {
+        $crate::registry::TypeEntry { name: $name, probe: $crate::registry::probe_ty::<$t>, decode: $crate::registry::decode_ty::<$t>, quiet: $crate::registry::quiet_ty::<$t>, eq: $crate::registry::eq_ty::<$t> }
+    };
 }
